@@ -154,7 +154,7 @@ class reusable_storage_mtsafe: public reusable_storage {
 public:
     void *alloc(std::size_t sz)  {
         void *p;
-        if (_busy.exchange(true, std::memory_order_relaxed)) {
+        if (_busy.exchange(true, std::memory_order_acquire)) {
             p = ::operator new(sz+sizeof(reusable_storage_mtsafe **));
         } else {
             p = reusable_storage::alloc(sz+sizeof(reusable_storage_mtsafe **));
@@ -167,7 +167,7 @@ public:
         auto s = reinterpret_cast<reusable_storage_mtsafe **>(reinterpret_cast<char *>(ptr) + sz);
         auto me = *s;
         if (ptr == me->_ptr) {
-            me->_busy.store(false, std::memory_order_relaxed);
+            me->_busy.store(false, std::memory_order_release);
         } else {
             ::operator delete(ptr);
         }
